@@ -85,6 +85,13 @@ pub fn check_case(ctx: &mut Ctx, c: &Case) {
     }
     ctx.expect(|| "WaveletMatrix.iter".into(), guard(|| { let it = wm.iter(); let l = it.len(); (it.collect::<Vec<u64>>(), l) }), &(vals.clone(), n), || json!({"wm": case(), "call": "iter()"}));
     ctx.expect(|| "WaveletMatrix.into_iter".into(), guard(|| { let it = wm.clone().into_iter(); let l = it.len(); (it.collect::<Vec<u64>>(), l) }), &(vals.clone(), n), || json!({"wm": case(), "call": "into_iter()"}));
+    // The vector is also reproduced when the listing is entered by a skip (also one past the end: the remaining
+    // length is then 0 and nothing follows).
+    for k in [0, n.saturating_sub(1), n, n + 1] {
+        let want = (vals.get(k).copied(), n.saturating_sub(k + 1), vals.iter().skip(k + 1).copied().collect::<Vec<u64>>());
+        ctx.expect(|| "WaveletMatrix.iter.nth".into(), guard(|| { let mut it = wm.iter(); let x = it.nth(k); let l = it.len(); (x, l, it.take(n + 1).collect::<Vec<u64>>()) }), &want, || json!({"wm": case(), "call": format!("iter(): nth({}), len(), then to the end", k)}));
+        ctx.expect(|| "WaveletMatrix.into_iter.nth".into(), guard(|| { let mut it = wm.clone().into_iter(); let x = it.nth(k); let l = it.len(); (x, l, it.take(n + 1).collect::<Vec<u64>>()) }), &want, || json!({"wm": case(), "call": format!("into_iter(): nth({}), len(), then to the end", k)}));
+    }
 
     let mut idx: Vec<usize> = (0..=n + 1).collect();
     idx.extend(boundary_args(n));
